@@ -85,7 +85,10 @@ ConcVecs ==
                                                      offexpires |-> << 101, 36, 250, 0 >>], 64, << 3 >>, 7200, n),
                               CS("NewEncryptedLeaseSet", 11, [off |-> FALSE, tst |-> 7, flags |-> 0, innerlen |-> 100, published |-> T4, expires |-> 600, offexpires |-> T4], 64, << 5 >>, 7300, n) >>,
                 << 4, 16 >>))
-Vecs == ConcVecs \o DeclVecs \o RIVecs \o LSVecs \o OffVecs \o ELSVecs \o ELSOddTransientVecs \o ELSMismatchVecs \o ELSDefectVecs \o LS2Vecs
+\* the twin constructor NewEncryptedLeaseSetFromDestination (signing type and blinded key taken from a Destination): same tuples, same judgement
+ViaDest(vs) == SeqMap(LAMBDA v : [ops |-> SeqMap(LAMBDA o : [o EXCEPT !.m = @ @@ [viadest |-> TRUE]], v.ops)], vs)
+NoKeyDelta(v) == "keydelta" \notin DOMAIN v.ops[1].m \/ v.ops[1].m.keydelta = 0      \* (a key of the wrong length cannot sit in a Destination)
+Vecs == ViaDest(ELSVecs \o SelectSeq(ELSDefectVecs, NoKeyDelta)) \o ConcVecs \o DeclVecs \o RIVecs \o LSVecs \o OffVecs \o ELSVecs \o ELSOddTransientVecs \o ELSMismatchVecs \o ELSDefectVecs \o LS2Vecs
 VARIABLE done
 Init == done = FALSE
 Next == ~done /\ ndJsonSerialize(OutFile, Vecs) /\ PrintT(<< "GENERATED", Len(Vecs) >>) /\ done' = TRUE
